@@ -379,7 +379,22 @@ def tlaps(ctx, proof_module, deps, timeout=900):
     rec, fails = {"ran": True, "module": "proofs/" + proof_module, "about": list(deps)}, []
     t0 = time.time()
     try:
-        p = subprocess.run(["tlapm", "--cleanfp", proof_module], cwd=d, stdout=subprocess.PIPE, stderr=subprocess.STDOUT, text=True, timeout=timeout)
+        # tlapm leaves back-end provers (z3 ...) running after it has finished: it gets a process group of its own, which is
+        # killed as a whole afterwards
+        import signal
+        pr = subprocess.Popen(["tlapm", "--cleanfp", proof_module], cwd=d, stdout=subprocess.PIPE, stderr=subprocess.STDOUT, text=True,
+                              start_new_session=True)
+        try:
+            out, _ = pr.communicate(timeout=timeout)
+        finally:
+            try:
+                os.killpg(pr.pid, signal.SIGKILL)
+            except (ProcessLookupError, PermissionError):
+                pass
+
+        class P:
+            stdout = out
+        p = P
         m = re.search(r"All (\d+) obligations? proved", p.stdout)
         rec["proved"] = bool(m)
         rec["obligations"] = int(m.group(1)) if m else 0
